@@ -105,6 +105,13 @@ class Array:
         self._accessmode = check_accessmode(value, validmodes=('r', 'r+'),
                                             makebinary=False)
         self._metadata.accessmode = value
+        if self._memmap is not None:
+            # an array that is already open (open_array context, iterchunks
+            # generator) should follow the new access mode
+            try:
+                self._memmap.flags.writeable = (self._accessmode == 'r+')
+            except ValueError:  # underlying map was opened read-only
+                pass
 
     @property
     def datadir(self):
